@@ -258,7 +258,8 @@ PROPS = {
         timeout={"quick": 1500, "thorough": 7200},
     ),
     "C04": dict(
-        lean_modules=["Liftbridge.Props.C04", "Liftbridge.Props.C04Pipeline"],
+        # Props.GoPartition: a replica (re-)added to the ISR starts with recorded offset -1 (go_AddToISR), the persisted set = the runtime set
+        lean_modules=["Liftbridge.Props.C04", "Liftbridge.Props.C04Pipeline", "Liftbridge.Props.GoPartition"],
         gen_sources=["server/partition.go", "server/replicator.go", "server/metadata.go", "server/commitlog/commitlog.go", "server/commitlog/leader_epoch_cache.go"],
         runs=[dict(go_pkg="./server", test="TestVerifC04Pipeline"),
               dict(go_pkg="./server/commitlog", test="TestVerifC04"), dict(go_pkg="./server", test="TestVerifC04Cluster"),
